@@ -72,7 +72,7 @@ theorem frontend_wf (an : Analysis) (lines : List String) (e : Elab) (h : elabor
   · cases h
   · split_ifs at h with hok
     cases h
-    exact alloc_wf _ _ _ hok
+    exact alloc_wf _ _ _ (Bool.and_eq_true _ _ ▸ hok).1
 
 /-- `WF` only looks at branch indices: it survives any reading of the values in a field -/
 theorem wf_of_owned_eq {A B : Type} (cs : List (Cpt A)) (ds : List (Cpt B))
